@@ -252,6 +252,8 @@ static void q_once(const plan_t *p)
     mode_g = p->mode; stray_call = 0;
     maxlive = (int)p->cfg[CF_MAXLIVE]; if (maxlive < 1) maxlive = 3;
     nalloc = 0; reach = 0;
+    memset(sp, (int)(unsigned char)p->cfg[CF_JUNK], sizeof sp); memset(wp, (int)(unsigned char)p->cfg[CF_JUNK], sizeof wp);
+    memset(up, (int)(unsigned char)p->cfg[CF_JUNK], sizeof up); memset(gp, (int)(unsigned char)p->cfg[CF_JUNK], sizeof gp);
     for (i = 0; i <= NSP; i++) { cstl_shared_ptr_init(&sp[i]); if (i < NSP) tsp[i] = -1; }
     for (i = 0; i <= NWP; i++) { cstl_weak_ptr_init(&wp[i]); if (i < NWP) twp[i] = -1; }
     for (i = 0; i <= NUP; i++) { cstl_unique_ptr_init(&up[i]); if (i < NUP) tup[i] = -1; }
